@@ -175,6 +175,16 @@ def run(chk):
                 l = lines_[i]
                 m = re.match(rb'^(\s*(?:- )?)([A-Za-z0-9_ ]+)(:.*)$', l)
                 inputs.append(('cal' if name != '-' else 'yaml', name, b'\n'.join(lines_[:i] + [m.group(1) + bad + m.group(3)] + lines_[i + 1:])))
+    # every keyword as the whole file / as the first line (scanner state that no earlier line has initialised), bare and with 1..3 arguments
+    for kw in ('#:version', '#:ports', '#:rows', '#:columns', '#:frequencies', '#:parameters', '#:z0', '#:fprecision', '#:dprecision', '#:bogus', '#:', '#'):
+        for args in ('', ' 1', ' 1 2', ' Sri', ' x y z'):
+            for tail in ('', '\n', '\n#:ports 1\n#:frequencies 1\n#:parameters Sri\n#:z0 50 0j\n1e9 0.25 0.5\n'):
+                inputs.append(('vd', 'x.npd', (kw + args + tail).encode()))
+    for kw in ('[Version]', '[Number of Ports]', '[Number of Frequencies]', '[Reference]', '[Matrix Format]', '[Two-Port Data Order]', '[Number of Noise Frequencies]', '[Network Data]',
+               '[End]', '[Mixed-Mode Order]', '[Begin Information]', '[Bogus]', '[', '#', '!'):
+        for args in ('', ' 2.0', ' 2', ' Full', ' 50 50'):
+            for tail in ('', '\n', '\n# Hz S RI R 50\n[Number of Ports] 1\n[Number of Frequencies] 1\n[Network Data]\n1e9 0.25 0.5\n[End]\n'):
+                inputs.append(('vd', rng.choice(['x.ts', 'x.s1p', 'x.s2p']), (kw + args + tail).encode()))
     for _ in range(nmut * 4):
         inputs.append((rng.choice(['vd', 'cal', 'yaml']), rng.choice(['x.npd', 'x.ts', 'x.s3p']), bytes(rng.randrange(256) for _ in range(rng.randint(0, 60)))))
     good_npd = '#NPD\n#:version 1.0\n#:ports 1\n#:frequencies 1\n#:parameters Sri\n#:z0 50 0j\n1e9 0.25 0.5\n'.encode().hex()
